@@ -176,6 +176,13 @@ def check_deep(case, acc):
 
 
 def check_case(case, acc):
+    if case.get("repr_boom"):
+        # the same case with node classes whose repr()/str() cannot be evaluated: a legal call never needs them
+        mut.REPR_BOOM[0] = True
+        try:
+            return check_case(dict(case, repr_boom=False), acc)
+        finally:
+            mut.REPR_BOOM[0] = False
     if case.get("kind") == "deep":
         return check_deep(case, acc)
     if case.get("kind") == "ownerless":
@@ -335,7 +342,7 @@ def plan(tier, seed):
     return tasks
 
 
-def _plain_only(cases, family):
+def _plain_only(cases, family, spec=None):
     for case in cases:
         op = case["steps"][0]["op"]
         if op[0] == "children" and isinstance(op[2], dict):
@@ -343,6 +350,8 @@ def _plain_only(cases, family):
         if family == "LM" and not mut.op_is_plain(op):
             continue
         yield case
+        if spec in ("HNM", "HLM") and mut.op_is_plain(op) and mut.spec(case["state"], op, family)[0] == "ok":
+            yield dict(case, repr_boom=True)
 
 
 @st.composite
@@ -383,7 +392,7 @@ def run_task(task, acc):
     if task["engine"] == "enum":
         family = mut.family_of(task["spec"])
         cases = mut.enum_fault_cases(task["spec"], task["n"], task["index"], task["count"], invalid=True, maxlen=task["maxlen"], routes=task.get("routes"))
-        acc.run_enum(check_case, _plain_only(cases, family))
+        acc.run_enum(check_case, _plain_only(cases, family, task["spec"] if isinstance(task["spec"], str) else None))
     elif task["engine"] == "ctor":
         acc.run_enum(check_case, _ctor_cases(task["n"], task["index"], task["count"]))
     else:
